@@ -16,9 +16,9 @@ Log == ndJsonDeserialize(IOEnv.TRACE)
 Sym(c) == IF c = 0 THEN "x" ELSE IF c = 1 THEN "r" ELSE "n"
 
 VARIABLE i
-TInit == i \in 1..Len(Log)
-TNext == UNCHANGED i
-TSpec == TInit /\ [][TNext]_i
+TInit == i \in 1..Len(Log) /\ stream = <<>> /\ pos = 0 /\ pending = <<>> /\ cr = FALSE /\ out = <<>>    \* (the variables of GwText are not used here)
+TNext == UNCHANGED <<i, vars>>
+TSpec == TInit /\ [][TNext]_<<i, vars>>
 
 LineOK == LET ln  == Log[i]
               str == [j \in 1..Len(ln.s) |-> Sym(ln.s[j])]
